@@ -675,9 +675,15 @@ def rule_uwidth(ctx):
             ctx.ob("uwidth", f, f.node, name, "helper belongs to one hash family", None)
             continue
         tys = list(f.ptypes.values()) + [f.rtype]
-        okk = all(t == wt for t in tys)
+        # the exact widths are part of the term comparison (rule dfg models every typed parameter/return as a truncation); what must
+        # hold independently is that helper scalars are unsigned (shifts stay logical, truncation is modular) and that values of the
+        # family's word are carried in that word
+        okk = all(t is not None and (t.kind == "bytes" or (t.kind == "uint" and not t.is_array)) for t in tys)
+        words = [t for t in tys if t is not None and t.kind == "uint" and t.bits >= min(32, wt.bits)]
+        okw = all(t == wt for t in words) or any(t.kind == "bytes" for t in tys if t is not None)
         ctx.ob("uwidth", f, f.node, "%s: %s -> %r" % (name, [repr(t) for t in f.ptypes.values()], f.rtype),
-               "helper takes and returns the family's unsigned word %r (this is what truncates Numba's 64-bit intermediates and keeps shifts logical)" % wt, okk)
+               "helper scalars are unsigned and word-sized values use the family's word %r (this is what truncates Numba's 64-bit intermediates and keeps shifts logical)" % wt,
+               okk and okw)
 
 
 def rule_blocks(ctx):
